@@ -49,7 +49,82 @@ def make_scheduler(cfg):
     return s, br
 
 
+class BracketStructure(Oracle):
+    """DEHB (and SHB) structural invariants on the bracket manager after every event: rung sizes as configured, trials of
+    a rung distinct, a later rung only holds results once the one below is complete, brackets cycle through the offsets,
+    suggest never answers 'nothing'; first-bracket promotions of DEHB (pause/resume) are the top list of the rung below."""
+
+    def __init__(self, rungs_first, n_offsets, mode):
+        self.rf = rungs_first
+        self.n = n_offsets
+        self.mode = mode
+
+    def after(self, world, ev, obs):
+        if obs[0] == "suggest" and obs[1] == "none":
+            return [("sync:suggest-none", "suggest returned None (request for work blocked) on an infinite space")]
+        try:
+            bm = world.s.bracket_manager
+            brackets = bm._brackets
+            offsets = bm._bracket_id_to_offset
+        except AttributeError:
+            return []
+        v = []
+        for bid, b in enumerate(brackets):
+            off = offsets[bid]
+            if off != bid % self.n:
+                v.append(("sync:offset-not-cycling", f"bracket {bid} has offset {off}, expected {bid % self.n}"))
+            conf = self.rf[off:]
+            rungs = b._rungs
+            if len(rungs) != len(conf):
+                v.append(("sync:bracket-rungs", f"bracket {bid}: {len(rungs)} rungs, configured {len(conf)}"))
+                continue
+            for j, (rung, level) in enumerate(rungs):
+                if not isinstance(rung, list):
+                    continue
+                size, lvl = conf[j]
+                if len(rung) != size or level != lvl:
+                    v.append(("sync:rung-size", f"bracket {bid} rung {j}: {len(rung)} slots at level {level}, configured {size} at {lvl}"))
+                done = [t for t, m in rung if m is not None]
+                ids = [t for t in done if t is not None]
+                if len(ids) != len(set(ids)):
+                    v.append(("sync:rung-duplicate-trial", f"bracket {bid} rung {j}: trials {ids} not distinct"))
+                if j > b.current_rung and done:
+                    v.append(("sync:result-above-incomplete-rung", f"bracket {bid}: rung {j} holds results while rung {b.current_rung} is incomplete"))
+                if j < b.current_rung and len(done) != size:
+                    v.append(("sync:moved-on-from-incomplete-rung", f"bracket {bid}: current rung {b.current_rung} but rung {j} has {len(done)}/{size} results"))
+            # first bracket of DEHB with pause/resume: the trials run at rung j+1 are the top list of rung j
+            if bid == 0:
+                for j in range(1, min(b.current_rung + 1, len(rungs))):
+                    prev = [(t, m) for t, m in rungs[j - 1][0]]
+                    cur_ids = [t for t, m in rungs[j][0] if t is not None]
+                    valid = sorted([(m, t) for t, m in prev if m is not None and m == m], reverse=(self.mode == "max"))
+                    top = {t for _, t in valid[: conf[j][0]]}
+                    if len(valid) >= conf[j][0] and not set(cur_ids) <= top:
+                        v.append(("sync:first-bracket-promotions-not-top", f"bracket 0 rung {j} runs trials {cur_ids}, top of the rung below is {sorted(top)}"))
+        out, seen = [], set()
+        for k, m in v:
+            if k not in seen:
+                seen.add(k)
+                out.append((k, m))
+        return out
+
+
+def build_dehb_world(cfg):
+    from .. import scheds
+    from .c01 import table
+    rf = [tuple(x) for x in cfg["rungs_first"]]
+    R = rf[-1][1]
+    sched, info = scheds.make("dehb", mode=cfg["mode"], seed=cfg["seed"], R=R, mra=cfg.get("use_mra", True),
+                              rungs_first_bracket=list(rf), **({"num_brackets_per_iteration": cfg["nbi"]} if cfg.get("nbi") else {}))
+    sign = 1.0 if cfg["mode"] == "min" else -1.0
+    spec = dict(W=cfg["W"], T=cfg["T"], R=R, table=table(cfg["T"], R, sign), brackets=0, max_resource_attr=info["mra"],
+                fail_budget=cfg.get("F", 0))
+    return World(sched, spec, [BracketStructure(rf, cfg.get("nbi") or len(rf), cfg["mode"])])
+
+
 def build_world(cfg):
+    if cfg.get("dehb"):
+        return build_dehb_world(cfg)
     s, br = make_scheduler(cfg)
     ref_sys = systems_of(cfg["sys"])
     max_level = ref_sys[0][-1][1]
@@ -67,6 +142,8 @@ def build_world(cfg):
 
 
 def ctx_of(cfg):
+    if cfg.get("dehb"):
+        return f"dehb/{len(cfg['rungs_first'])}rungs"
     return f"shb/{cfg['sys']}"
 
 
@@ -77,9 +154,10 @@ def label(cfg):
 def task(cfg):
     cov, viols = explore(lambda: build_world(cfg), PROP, label(cfg), max_depth=cfg.get("D"),
                          max_states=cfg.get("max_states"), ctx=ctx_of(cfg))
-    w = build_world(cfg)
-    if w.dead:
-        viols.append(Violation(PROP, ctx_of(cfg) + "|sync:rung-system", w.dead[3], {"cfg": label(cfg)}))
+    if not cfg.get("dehb"):
+        w = build_world(cfg)
+        if w.dead:
+            viols.append(Violation(PROP, ctx_of(cfg) + "|sync:rung-system", w.dead[3], {"cfg": label(cfg)}))
     return cov, viols
 
 
@@ -105,6 +183,13 @@ def configs(tier, seed):
                             cfg["perms"][str(ref_sys[0][1][1])] = tuple(reversed(range(T))) if (len(out) % 2) else tuple(range(T))
                         cfg["max_states"] = 4000 if tier == "quick" else 50000
                         out.append(cfg)
+    # DEHB: structural subset
+    for rf in ([(3, 1), (2, 2), (1, 4)], [(2, 1), (1, 3)]):
+        for mode in ("min", "max"):
+            for W in ((2,) if tier == "quick" else (1, 2, 3)):
+                for F in ((0, 1) if tier == "quick" else (0, 1, 2)):
+                    out.append(dict(dehb=True, rungs_first=rf, mode=mode, W=W, T=5 if tier == "quick" else 7, F=F, seed=seed,
+                                    use_mra=True, nbi=None, max_states=3000 if tier == "quick" else 40000))
     return out
 
 
